@@ -148,7 +148,23 @@ def select_appenders(u, fl, PB, generic=False):
              spec="ensures final(self).%s is Some, %s," % (nm, frame(nm)))
 
 
+def check_no_interior_mutability(u):
+    """C15 `later changes to either never show in the other` / C02 `rendering never modifies the statement` rest on ownership: a clone owns
+    its fields and `&self` cannot mutate.  That holds unless a type uses interior mutability or global mutable state - checked syntactically
+    on every run over src/ (outside #[cfg(test)]): none of RefCell / Cell / Mutex / RwLock / Atomic* / UnsafeCell / static mut / thread_local."""
+    import glob, os
+    pat = re.compile(r"\b(RefCell|Cell\s*<|OnceCell|Mutex|RwLock|Atomic[A-Z][A-Za-z0-9]*|UnsafeCell|static\s+mut|thread_local!|lazy_static!|OnceLock)\b")
+    for p in sorted(glob.glob(os.path.join(u.repo, "src", "**", "*.rs"), recursive=True)):
+        rel = os.path.relpath(p, u.repo)
+        code = u.src(rel).split("#[cfg(test)]")[0]
+        code = re.sub(r"//[^\n]*", "", code)
+        m = pat.search(code)
+        if m:
+            raise rl.Unsupported("%s uses `%s`: interior mutability / global mutable state - independence of a clone and purity of rendering are no longer consequences of ownership" % (rel, m.group(1)))
+
+
 def build(u):
+    check_no_interior_mutability(u)
     u.emit("use vstd::prelude::*;\nverus! {\n")
     structs, texts = {}, {}
     known = set(t for _, t, _ in TAKES) | {"ConditionHolder", "ConditionHolderContents"}
